@@ -15,6 +15,7 @@ Vector ==
      lay |-> lay, root |-> root, walk |-> walk, outL |-> outL, outB |-> outB,
      role |-> [p \in 1..Len(role) |-> role[p][1]],
      wid |-> [p \in 1..Len(role) |-> role[p][2]],
-     gta |-> GreedyTailAligned]
+     gta |-> GreedyTailAligned, ust |-> ust,
+     raw |-> [i \in 1..Len(env) |-> IF env[i].k = "struct" THEN RawTable(Parts(SubSeq(lay, 1, i - 1), env[i].ms)) ELSE <<>>]]
 Dump == phase = "done" => PrintT("VEC " \o ToJson(Vector))
 =============================================================================
